@@ -104,7 +104,7 @@ impl Clone for StateVar { #[verifier::external_body] fn clone(&self) -> Self { S
 pub struct EdgeTraversal { pub edge_id: EdgeId, pub access_cost: Cost, pub traversal_cost: Cost, pub result_state: Vec<StateVar> }
 pub uninterp spec fn et_cost(et: EdgeTraversal) -> Cost;
 impl EdgeTraversal { #[verifier::external_body] pub fn total_cost(&self) -> (r: Cost) ensures r == et_cost(*self) { self.access_cost + self.traversal_cost } }
-pub enum SearchError { InternalError(String), NoPathExistsBetweenVertices(VertexId, VertexId), TerminationModelFailure, Other }
+pub enum SearchError { InternalError(String), BuildError(String), NoPathExistsBetweenVertices(VertexId, VertexId), TerminationModelFailure, Other }
 """
 
 SHIMS = """
